@@ -5,7 +5,7 @@ RULE = ("MSS boundary values + uniform, both IP versions, MTU 41..65535, base op
         "several other options), bare or under Ethernet / 802.1Q / Linux cooked link layers, both as sniffed (dissected from bytes, explicit fields) and as constructed Scapy packets, all flag "
         "types incl. invalid and fragments, MTU databases with duplicates and misses; non-trivial = fingerprint accepted the packet; "
         "the impersonated packet is re-fingerprinted and all non-option fields compared")
-GEN_TIE = True     # gates, from_mss and mtu_signatures_match are also TRANSLATED from /repo's source on every run and proved equal to the model
+GEN_TIE = ['mtu']     # gates, from_mss and mtu_signatures_match are also TRANSLATED from /repo's source on every run and proved equal to the model
 ASSUMPTIONS = ["sniffed packets: (fragment, type, version, MSS) come from the model's own extractor on the bytes; constructed packets and link-layer bases: "
                "fragment status and type from the input's header bits, version and MSS as the implementation extracted them (C03's tie)"]
 EXHAUSTIVE = {"MSS 1..2000 x both versions through fingerprint_mtu (thorough: 1..65535)": True}
